@@ -83,12 +83,15 @@ let canon_dump (items : (n list * string) list) : string =
   String.concat ";" (List.map (fun (p, s) ->
     (if p = [] then "-" else String.concat "/" (List.map string_of_int p)) ^ ":" ^ s) items)
 
-let pit_string (s : state) : string =
-  canon_dump (List.map (fun (p, ids) -> (p, String.concat "," (List.map (fun i -> string_of_int (int_of_nat i)) ids))) (dump_pit s))
+(* [hidden]: Interests expressed with a nil callback: the harness cannot see them (neither in callbacks nor in the dumps) *)
+let pit_string (hidden : int list) (s : state) : string =
+  canon_dump (List.map (fun (p, ids) ->
+    (p, String.concat "," (List.filter_map (fun i -> let k = int_of_nat i in if List.mem k hidden then None else Some (string_of_int k)) ids)))
+    (dump_pit s))
 let fib_string (s : state) : string =
   canon_dump (List.map (fun (p, h) -> (p, match h with Some x -> string_of_int (int_of_n x) | None -> "-")) (dump_fib s))
 
-type op = { text : string; at : int; mutable nops : (string * int) list; mutable cbs : string list;
+type op = { text : string; at : int; mutable nops : (string * int) list; mutable nocb : int list; mutable cbs : string list;
             mutable outs : string list; mutable pit : string; mutable fib : string }
 
 let split_digest (full : n list) : n list * n option =
@@ -149,10 +152,11 @@ let () =
     | "op" :: rest ->
         flush_op ();
         let (fields, at) = strip_at rest in
-        cur_op := Some { text = String.concat " " fields; at; nops = []; cbs = []; outs = []; pit = ""; fib = "" }
+        cur_op := Some { text = String.concat " " fields; at; nops = []; nocb = []; cbs = []; outs = []; pit = ""; fib = "" }
     | "nop" :: rest ->
         let (fields, t) = strip_at rest in
         (match !cur_op with Some o -> o.nops <- o.nops @ [(String.concat " " fields, t)] | None -> ())
+    | ["nocb"; p] -> (match !cur_op with Some o -> o.nocb <- o.nocb @ [int_of_string p] | None -> ())
     | "cb" :: _ -> (match !cur_op with Some o -> o.cbs <- o.cbs @ [l] | None -> ())
     | ("out" | "ret" | "handler") :: _ -> (match !cur_op with Some o -> o.outs <- o.outs @ [l] | None -> ())
     | "pit" :: r -> (match !cur_op with Some o -> o.pit <- String.concat " " r | None -> ())
@@ -170,6 +174,8 @@ let () =
        explored; candidates whose observations differ from the implementation's are dropped; a case diverges when no
        candidate is left. *)
     let states = ref [init] in
+    let hidden = ref [] in          (* Interests expressed with a nil callback *)
+    let face_up = ref true in       (* engine.Stop / Start: kept by the driver, the model has no face *)
     let diverged = ref oracle_only in
     let kinds = Hashtbl.create 8 in
     let any_cb = ref false in
@@ -184,6 +190,7 @@ let () =
       let f = String.split_on_char ' ' o.text in
       Hashtbl.replace kinds (List.hd f) ();
       if o.cbs <> [] then any_cb := true;
+      hidden := o.nocb @ !hidden;
       if not !diverged then begin
         let step1 (st, ob) e = let (s', ob') = step v st e in (s', ob @ ob') in
         let nop_ev (txt, _) = parse_express (String.split_on_char ' ' txt) in
@@ -279,7 +286,14 @@ let () =
           | ["attach"; nm; h] -> [step1 (st, []) (EAttach (name_of_string nm, n_of_int (int_of_string h)))]
           | ["detach"; nm] -> [step1 (st, []) (EDetach (name_of_string nm))]
           | ["interest"; nm; life; tok] -> [step1 (st, []) (EInterest (name_of_string nm, opt_n life, opt_tok tok))]
-          | ["reply"; i] -> [step1 (st, []) (EReply (nat_of_int (int_of_string i)))]
+          | ["reply"; i] ->
+              let (st', ob) = step1 (st, []) (EReply (nat_of_int (int_of_string i))) in
+              (* through a face that is not running the reply closure returns ErrFaceDown after the deadline test *)
+              if (not !face_up) && List.exists (function OSendData _ -> true | _ -> false) ob
+              then [(st', [ORet (n_of_int 1)])] else [(st', ob)]
+          | ["junk"; _] -> [(st, [])]     (* malformed / unsupported arrival, face error, arrival at a stopped face: nothing happens *)
+          | ["facestop"] -> [(st, [ORet (n_of_int (if !face_up then 0 else 1))])]
+          | ["facestart"] -> [(st, [ORet (n_of_int (if !face_up then 1 else 0))])]
           | _ -> Printf.printf "BADLINE %s op %s\n" cid o.text; [(st, [])] in
         let is_cb l = String.length l > 3 && String.sub l 0 3 = "cb " in
         let is_adv = (List.hd f = "adv") in
@@ -293,16 +307,18 @@ let () =
         (* first difference between a candidate and the implementation, if any *)
         let differs (st, mobs) : (string * string * string) option =
           let mstr = List.map string_of_obs mobs in
-          let mcbs = srt (List.filter is_cb mstr) and mouts = List.sort compare (List.filter (fun l -> not (is_cb l)) mstr) in
+          let cb_hidden l = (match String.split_on_char ' ' l with "cb" :: p :: _ -> List.mem (int_of_string p) !hidden | _ -> false) in
+          let mcbs = srt (List.filter (fun l -> is_cb l && not (cb_hidden l)) mstr) and mouts = List.sort compare (List.filter (fun l -> not (is_cb l)) mstr) in
           if mcbs <> icbs then Some ("callbacks", String.concat "; " mcbs, String.concat "; " icbs)
           else if mouts <> iouts then Some ("outputs", String.concat "; " mouts, String.concat "; " iouts)
-          else let mp = pit_string st in
+          else let mp = pit_string !hidden st in
           if mp <> o.pit then Some ("pit", mp, o.pit)
           else let mf = fib_string st in
           if mf <> o.fib then Some ("fib", mf, o.fib)
           else if int_of_n (now st) <> o.at then Some ("clock", string_of_int (int_of_n (now st)), string_of_int o.at)
           else None in
         let cands = List.concat_map outcomes !states in
+        (match f with ["facestop"] -> face_up := false | ["facestart"] -> face_up := true | _ -> ());
         if List.length cands > List.length !states then Hashtbl.replace kinds "~orders" ();
         let good = List.filter (fun c -> differs c = None) cands in
         if good = [] then begin
@@ -346,10 +362,21 @@ let () =
         let feed_nop (txt, _) =
           match parse_express (String.split_on_char ' ' txt) with
           | Some (EExpress (nm, cbp, dig, life)) -> feed idx ("nested " ^ txt) (SExpress (nm, cbp, dig, life)) (take_out_int ())
+          | Some (EExpressFail (nm, cbp, dig, life)) -> feed idx ("nested " ^ txt) (SExpressFail (nm, cbp, dig, life)) [ORet (n_of_int 1)]
           | Some (EData (nm, dd)) -> feed idx ("during-send " ^ txt) (SData (nm, dd)) (parse o.cbs)
           | Some (ENack (nm, dig, r)) -> feed idx ("during-send " ^ txt) (SNack (nm, dig, r)) (parse o.cbs)
           | _ -> () in
         (match f with
+         | "express" :: _ when o.nocb <> [] ->
+             (* nil callback: nothing can be observed for this Interest; it takes its id and is not required to resolve *)
+             (match parse_express f with
+              | Some (EExpress (nm, cbp, dig, life)) ->
+                  ignore (take_out_int ());
+                  feed idx o.text (SExpressFail (nm, cbp, dig, life)) [ORet (n_of_int 1)]
+              | _ -> ());
+             List.iter feed_nop o.nops
+         | ["junk"; _] -> feed idx o.text (SAdvance N0) (parse o.cbs)
+         | ["facestop"] | ["facestart"] -> feed idx o.text (SAdvance N0) (parse o.cbs)
          | "express" :: _ ->
              (match parse_express f with
               | Some (EExpress (nm, cbp, dig, life)) ->
@@ -361,7 +388,8 @@ let () =
          | "expressfail" :: _ ->
              (match parse_express f with
               | Some (EExpressFail (nm, cbp, dig, life)) ->
-                  feed idx o.text (SExpressFail (nm, cbp, dig, life)) (parse (List.filter (fun x -> x = "ret err") !outs))
+                  (* a nested Express that failed too reports its own "ret err" *)
+                  feed idx o.text (SExpressFail (nm, cbp, dig, life)) (if List.mem "ret err" !outs then [ORet (n_of_int 1)] else [])
               | _ -> ());
              List.iter feed_nop o.nops
          | ["data"; nm; dd] ->
